@@ -371,6 +371,16 @@ func (a *KeyArg) Parse() error {
 	if len(strs) == 0 {
 		return errors.New("invalid key argument: " + string(a.arg))
 	}
+	// key-arg = node-identifier *(sep node-identifier).  Nested keys
+	// ("container/leaf") are supported as an extension, so each name is
+	// checked as a descendant schema node identifier.
+	for _, s := range strs {
+		id := &DescendantSchemaArg{arg: arg(s)}
+		if err := id.Parse(); err != nil {
+			return errors.New("invalid key argument: " + string(a.arg) +
+				": " + err.Error())
+		}
+	}
 	a.keys = strs
 	return nil
 }
